@@ -672,7 +672,10 @@ class _ActionSubCommands(_SubParsersAction):
         # parse arguments
         if subcommand in self._name_parser_map:
             subparser = self._name_parser_map[subcommand]
-            subnamespace = namespace.get(subcommand).clone() if subcommand in namespace else None
+            subnamespace = namespace.get(subcommand)
+            if subnamespace is not None and not isinstance(subnamespace, Namespace):
+                raise argument_error(f'Expected nested settings for subcommand "{subcommand}", but got: {subnamespace!r}')
+            subnamespace = subnamespace.clone() if subnamespace is not None else None
             kwargs = dict(_skip_validation=True, **parse_kwargs.get())
             namespace[subcommand] = subparser.parse_args(arg_strings, namespace=subnamespace, **kwargs)
 
